@@ -11,6 +11,7 @@ Requests (doubles = 16 hex digits of the bit pattern, strings = 4 hex digits per
   valid <units>    -> 0|1 / 0|1                  doValidate / matchesNumber
   round|floor|ceil <bits> -> <bits>|nan / <spec>  model / XPath 4.4 specification
   bound            -> 0|1   generatedBufferCoversAllDoubles (buffer inequality over the regenerated constants)
+  xeval id|round|floor|ceiling|neg <units> -> <bits> <text>   y = fn (toDouble s) and numberToString y (expected values for the engine stream)
   xchain id|round|floor|ceiling <units> -> ok:<text>   numberToString (fn (toDouble s))
 -/
 open XalanModel.C18
@@ -50,6 +51,20 @@ def step (_ : Unit) : List String → Unit × String
     | none => ((), "bad")
   | ["ceil", h] => match Driver.parseHex h with
     | some n => ((), (ceiling (Dbl.ofBits n)).render ++ " / " ++ (ceilingSpec (Dbl.ofBits n)).render)
+    | none => ((), "bad")
+  | ["xeval", fn, u] => match Driver.unitsOfHex u with
+    | some s =>
+      let x := toDouble s
+      let y := match fn with
+        | "round" => some (round x) | "floor" => some (floor x) | "ceiling" => some (ceiling x)
+        | "id" => some x
+        | "neg" => some (match x with | .fin n m e => .fin (!n) m e | .inf n => .inf (!n) | .nan => .nan)
+        | _ => none
+      match y with
+      | some y => match numberToString genCfg y with
+        | .ok t => ((), y.render ++ " " ++ renderChars t)
+        | .memErr => ((), y.render ++ " mem")
+      | none => ((), "bad")
     | none => ((), "bad")
   | ["xchain", fn, u] => match Driver.unitsOfHex u with
     | some s =>
